@@ -61,3 +61,19 @@ package topology
 
 //@ func GenerateFuzzyHash
 //@   requires t != nil
+
+// ---- C19 / C08 / C17: the topology extracted from a function is well formed, and the string literals it retains stay
+// within the configured byte budget. retained (ghost): bytes of the literals appended so far, counted from the
+// appended elements themselves (not from the function's own counter).
+//@ func ExtractTopology
+//@   noframe
+//@   ghost retained int
+//@   init retained = 0
+//@   ensures [C19.wf] [C08.wf] [C17.cap] result != nil ==> wfT(result)
+//@   return-ensures [C17.cap] retained == currentStringBytes && (retained == 0 || retained <= maxTotalBytes)
+//@   loop 5 update retained = prev(retained) + ite(len(t.StringLiterals) > prev(len(t.StringLiterals)), len(t.StringLiterals[len(t.StringLiterals) - 1]), 0)
+//@   loop 3 invariant [C19.wf] [C08.wf] [C17.cap] wfT(t) && retained == currentStringBytes && (retained == 0 || retained <= maxTotalBytes)
+//@   loop 4 invariant [C19.wf] [C08.wf] [C17.cap] wfT(t) && retained == currentStringBytes && (retained == 0 || retained <= maxTotalBytes)
+//@   loop 5 invariant [C19.wf] [C08.wf] [C17.cap] wfT(t) && retained == currentStringBytes && (retained == 0 || retained <= maxTotalBytes)
+//@   loop 6 invariant [C19.wf] [C08.wf] [C17.cap] wfT(t)
+//@   loop 7 invariant [C19.wf] [C08.wf] [C17.cap] wfT(t)
